@@ -8,7 +8,7 @@ See DESIGN.md section 2.4(a).
 import re, sys, ast, types
 import numpy as np
 
-TYPE_RE = r"(?:public\s+)?(?:unsigned\s+)?(?:int|double|float|long|char\s*\*|object|bint)(?:\s*\[[^\]]*\])?"
+TYPE_RE = r"(?:public\s+)?(?:readonly\s+)?(?:const\s+)?(?:unsigned\s+)?(?:int|double|float|long\s+long|long|char\s*\*|object|bint|Py_ssize_t|size_t|str|list|dict|tuple)(?:\s*\[[^\]]*\])?"
 
 
 def split_args(s):
@@ -89,6 +89,17 @@ def ptr_arg(a):
     return a, None
 
 
+_CAST = re.compile(r"<\s*(?:unsigned\s+)?(?:int|long|double|float|bint|object|Py_ssize_t|size_t|np\.\w+_t)\s*\*?\s*>")
+
+
+def _strip_casts(line):
+    """drop C casts such as <double>x (outside string literals and comments)"""
+    code, sep, comment = line.partition("#")
+    if "'" in code or '"' in code:
+        return line
+    return _CAST.sub("", code) + sep + comment
+
+
 def translate(src):
     out = []
     lines = logical_lines(src)
@@ -130,9 +141,16 @@ def translate(src):
         m = re.match(r"^(\s*)cdef\s+class\s+(\w+)\s*:", line)
         if m:
             out.append(f"{m.group(1)}class {m.group(2)}:"); continue
-        m = re.match(r"^(\s*)(?:cdef|cpdef|def)\s+(?:(?:void|int|double|object|bint)\s+)?(\w+)\s*\((.*)\)\s*:\s*$", line)
-        if m:
+        m = re.match(r"^(\s*)(?:cdef|cpdef|def)\s+(?:inline\s+)?(?:(?:void|int|long|double|float|object|bint|Py_ssize_t|size_t)\s*\*?\s+)?(\w+)\s*\((.*)\)"
+                     r"\s*(?:(?:noexcept|nogil|except\s*[-+*?\w.]*)\s*)*:\s*$", line)
+        if m and not re.match(r"^\s*def\s", line) or (m and re.match(r"^\s*def\s", line)):
             out.append(f"{m.group(1)}def {m.group(2)}({strip_param_types(m.group(3))}):"); continue
+        # Cython-only decorators and nogil blocks
+        if re.match(r"^\s*@cython\.\w+(\(.*\))?\s*$", line) or re.match(r"^\s*@(cython\.)?(cfunc|ccall|inline|final)\s*$", line):
+            continue
+        m = re.match(r"^(\s*)with\s+(?:nogil|gil)\s*:\s*$", line)
+        if m:
+            out.append(f"{m.group(1)}if True:"); continue
         m = re.match(r"^(\s*)cdef\s+(" + TYPE_RE + r")\s*(.*)$", line)
         if m:
             rest = m.group(3)
@@ -165,7 +183,7 @@ def translate(src):
         if "&" in re.sub(r"(\"[^\"]*\"|'[^']*')", "", stripped.split("#")[0]):
             raise SyntaxError(f"line {no}: unsupported address-of in {line!r}")
         out.append(line)
-    py = "\n".join(out)
+    py = "\n".join(_strip_casts(l) for l in out)
     ast.parse(py)
     return py
 
